@@ -654,7 +654,31 @@ class Analysis:
                 av[0] is not None and (self.operand_ty(args[0]) or {}).get('k') == 'int':
             # integer narrowing: the Ok payload is the argument itself (when it fits)
             val = None
-            self._set_aux = ('some', av[0])
+            drng_ = None
+            try:
+                dt_ = self.ty_of_place(dest) if isinstance(dest, dict) else None
+                if dt_ and dt_.get('args'):
+                    drng_ = type_range(self.fn.types[dt_['args'][0]])
+            except Exception:
+                drng_ = None
+            pay_ = av[0]
+            if drng_ is not None:
+                m_ = meet(pay_, drng_)
+                if m_ != 'empty':
+                    pay_ = m_
+                if av[0][0] >= drng_[0] and av[0][1] <= drng_[1]:
+                    self._set_sub = [('issome', (), (1, 1))]  # the value fits: the conversion cannot fail
+            self._set_aux = ('some', pay_)
+        elif callee in ('core::result::Result::unwrap_or', 'core::option::Option::unwrap_or') and len(args) == 2 and \
+                op_place(args[0]) is not None:
+            k0_ = place_key(op_place(args[0]))
+            pay_ = st.get(('some', k0_))
+            if pay_ is not None and ('issome', k0_) in st:
+                val = pay_ if pay_[0] <= pay_[1] else rng
+            elif pay_ is not None and av[1] is not None and pay_[0] <= pay_[1]:
+                val = join(pay_, av[1])
+            else:
+                val = rng
         elif callee == 'core::ops::try_trait::Try::branch' and len(args) == 1 and op_place(args[0]) is not None and \
                 ('some', place_key(op_place(args[0]))) in st:
             # `opt?` / `res?`: the Continue payload is the Some / Ok payload
